@@ -667,7 +667,43 @@ def rule_res(ctx) -> None:
     ctx.check(bool(tl) and all(".lower()" in src(d.value) and "text" in src(d.value) for d in tl), "C11.RES", f"{t2.qual}/hit-text-lowered", t2.loc(), "labels are matched against the lower-cased hit text", "t_low is not the lower-cased hit text")
 
 
+def rule_cluster_id_identity(ctx) -> None:
+    """cluster membership comes from aux.cluster_id; 'no cluster id' is told from a real id by identity (is None / == ""), never
+    by truthiness: cluster 0 is a cluster, and reading it as absent turns its members into singleton clusters, so the cluster
+    tier returns one member of the best cluster instead of all of them.  All sibling readers (in-memory, both Lance readers)."""
+    from ..zero import truthy_operands
+    n_sites = 0
+    for mn in (IDX, LANCE):
+        for fn in ctx.prog.module(mn).funcs.values():
+            names = set()
+            for x in walk_no_defs(fn.node):
+                if isinstance(x, ast.Assign) and len(x.targets) == 1 and isinstance(x.targets[0], ast.Name) and any(isinstance(c, ast.Call) and call_tail(c) == "get" and c.args and const_str(c.args[0]) == "cluster_id" for c in ast.walk(x.value)):
+                    names.add(x.targets[0].id)
+            if not names:
+                continue
+            n_sites += 1
+            bad = None
+            for x in walk_no_defs(fn.node):
+                tests = [x.test] if isinstance(x, (ast.If, ast.IfExp, ast.While)) else ([x] if isinstance(x, ast.BoolOp) else [])
+                for t in tests:
+                    for o in truthy_operands(t):
+                        if isinstance(o, ast.Name) and o.id in names:
+                            bad = t
+            ctx.check(bad is None, "C11.TIER", f"{fn.qual}/cluster-id-by-identity", fn.loc(bad) if bad is not None else fn.loc(),
+                      "the episode's cluster id is tested with `is None` / `== \"\"`, so id 0 names a cluster",
+                      f"`{src(bad)[:40] if bad is not None else ''}` tests the cluster id for truthiness: members of cluster 0 are treated as unclustered and become singleton clusters, "
+                      "so with clusters_top_m = 1 the tier returns one of them instead of the whole best cluster")
+    ctx.floor("C11.TIER", "readers of aux.cluster_id", n_sites, 3)
+
+
+def rule_zero_caps(ctx) -> None:
+    from ..zero import zero_cap_rule
+    zero_cap_rule(ctx, "C11.RES", ["clematis.engine.stages.t2.core:t2_semantic", "clematis.engine.stages.t2.shard:merge_tier_hits_across_shards_dict"], 3)
+
+
 def run(ctx) -> None:
+    rule_zero_caps(ctx)
+    rule_cluster_id_identity(ctx)
     rule_owner(ctx)
     rule_thr(ctx)
     rule_k(ctx)
